@@ -117,3 +117,36 @@ example : parse "%é".toList = some ([.lit ['é']], false) ∧ parse "\\é".toLi
     parse "%99999999999999999999d".toList = none := by decide
 
 end FuModel.Find.Run.PrintfR
+
+namespace FuModel.Find.Run
+open FuModel.Find.Walk
+
+/-- **Whole starting point**: `find START TEST -printf FORMAT`, for every tree, depth range,
+    traversal order, parsed format and test that only looks at the entry: the bytes written are
+    exactly, in visit order, the renderings of the format for the in-range reachable entries that
+    satisfy the test — one rendering per such entry, nothing between them.  (`processDir_out`,
+    `Proofs/OutWalk.lean`.) -/
+theorem C16_whole_walk (c : Config) (t : Prim) (ht : isTestP t = true)
+    (comps : List FuModel.Find.Printf.Comp) (raw : List Char)
+    (start : Bytes) (root : Node Attr) (g : GS)
+    (hH : (refCfg c).depthFirst = true → ¬ HRootLink (refCfg c) (if c.sorted then sortNode root else root)) :
+    let n := if c.sorted then sortNode root else root
+    let r := processDir c (.and [.prim t, .prim (.printf comps raw)]) start (some root) g
+    r.gs.out = g.out ++ (visitsN (refCfg c) [] 0 n).flatMap (fun v => if (sem start v t es0).1 then PrintfR.render start v comps else []) ∧
+      r.quit = false := by
+  have h := processDir_out c t (.printf comps raw) ht rfl start root g hH
+  have e : written start t (.printf comps raw) = fun v => if (sem start v t es0).1 then PrintfR.render start v comps else [] := by
+    funext v; simp [written, outOf]
+  rw [e] at h
+  exact h
+
+/-- non-vacuity of `C16_whole_walk`: the literal format `x\n` with `-type f` on a two-level tree —
+    the reference side, evaluated by the kernel -/
+example :
+    let root : Node Attr := .dir [116] false true { lty := 'd', sty := 'd' }
+      [.leaf [97] .plain { lty := 'f', sty := 'f' }, .leaf [98] .plain { lty := 'f', sty := 'f' }]
+    (visitsN (refCfg {}) [] 0 root).flatMap
+        (fun v => if (sem [116] v (.typeIs 'f') es0).1 then PrintfR.render [116] v [.lit ['x', '\n']] else []) =
+      [120, 10, 120, 10] := by decide +kernel
+
+end FuModel.Find.Run
